@@ -36,13 +36,39 @@ def stepBody (fuel : Nat) (prog : Program) : StepKind → Body
 def groupsCallee (fuel : Nat) (prog : Program) (pipe : String) : CofCfg → Body := fun c s' =>
   runGroups fuel prog (s'.stack.head?.getD pipe) c.groups c.success c.failure s'
 
-theorem runStep_eq (fuel : Nat) (prog : Program) (pipe : String) (d : StepDef) (kind : StepKind) (s : St)
+theorem runStep_eq_described (fuel : Nat) (prog : Program) (pipe : String) (d : StepDef) (kind : StepKind) (s : St)
     (hk : stepInit d = .ok kind) :
     runStep (fuel + 1) prog pipe d s =
-      runStepWith d (stepBody fuel prog kind) (groupsCallee fuel prog pipe) fuel s := by
+      runStepDescribed d (stepBody fuel prog kind) (groupsCallee fuel prog pipe) fuel s := by
   conv => lhs; unfold runStep
   simp only [hk]
   cases kind <;> rfl
+
+/-- a step without `description` (or with a falsy one) raises nothing up front. -/
+theorem describe_none (d : StepDef) (s : St) (h : d.description = none) : describe d s = none := by
+  unfold describe; rw [h]
+
+/-- `Step.run_step` when the description notification raises nothing (`Quiet`): the decorator stack. -/
+theorem runStepDescribed_quiet (d : StepDef) (body : Body) (callee : CofCfg → Body) (fuel : Nat) (s : St)
+    (hq : describe d (setIn d s) = none) :
+    runStepDescribed d body callee fuel s = runStepWith d body callee fuel s := by
+  unfold runStepDescribed; rw [hq]
+
+/-- … and when formatting the description fails: that error, raised with the `in` arguments set; the
+    module body never runs, no decorator is evaluated. -/
+theorem runStepDescribed_fails (d : StepDef) (body : Body) (callee : CofCfg → Body) (fuel : Nat) (s : St) (x : Exc)
+    (hq : describe d (setIn d s) = some x) :
+    runStepDescribed d body callee fuel s = raiseExc (setIn d s) x := by
+  unfold runStepDescribed; rw [hq]
+
+/-- NEW HYPOTHESIS `hq` (since the model covers `description`): the step's description, if it has one,
+    formats without error in the state with the `in` arguments set; `describe_none` discharges it for a
+    step without description. Without it `runStep` is `runStepDescribed` (`runStep_eq_described`). -/
+theorem runStep_eq (fuel : Nat) (prog : Program) (pipe : String) (d : StepDef) (kind : StepKind) (s : St)
+    (hk : stepInit d = .ok kind) (hq : describe d (setIn d s) = none) :
+    runStep (fuel + 1) prog pipe d s =
+      runStepWith d (stepBody fuel prog kind) (groupsCallee fuel prog pipe) fuel s := by
+  rw [runStep_eq_described fuel prog pipe d kind s hk, runStepDescribed_quiet _ _ _ _ _ hq]
 
 /-- no `while`, no `foreach`, no `retry`, `run` and `skip` at their defaults. -/
 structure Plain (d : StepDef) : Prop where
@@ -119,7 +145,7 @@ theorem runStepGroup_jump (fuel : Nat) (prog : Program) (pipe g : String) (raise
     (c : CofCfg) (h : runSteps fuel prog pipe (groupSteps prog pipe g) s = (s1, .jump c)) :
     runStepGroup (fuel + 1) prog pipe g raiseStop s =
       runGroups fuel prog pipe c.groups c.success c.failure s1 := by
-  rw [runStepGroup_eq, h]
+  rw [runStepGroup_of_run fuel prog pipe g raiseStop s s1 _ h (by simp) (by simp)]
 
 theorem runGroupList_jump (fuel : Nat) (prog : Program) (pipe g : String) (rest : List String) (s s1 : St)
     (c : CofCfg) (h : runSteps fuel prog pipe (groupSteps prog pipe g) s = (s1, .jump c)) :
